@@ -22,10 +22,17 @@ warnings.simplefilter("ignore")
 os.environ["TZ"] = "Pacific/Kiritimati"
 time.tzset()
 
-import stix2  # noqa: E402
-import stix2.base  # noqa: E402
-import stix2.utils  # noqa: E402
-from stix2.base import _STIXBase  # noqa: E402
+# a library that cannot even be imported in this environment (it builds the four TLP markings at import) answers
+# every case with that error: the oracles then see valid input refused, with a replay that reproduces
+IMPORT_ERROR = None
+try:
+    import stix2  # noqa: E402
+    import stix2.base  # noqa: E402
+    import stix2.utils  # noqa: E402
+    from stix2.base import _STIXBase  # noqa: E402
+except Exception as _e:  # noqa: BLE001
+    IMPORT_ERROR = "ERR " + type(_e).__name__
+    _STIXBase = ()
 
 # the same three values are Model/SchemaRun.v:sentinel_env
 # uuid4 must differ from call to call (the constructor compares a fresh default() with the stored id
@@ -43,8 +50,9 @@ def _uuid4():
 U4_RE = re.compile(r"ffffffff-ffff-4fff-bfff-[0-9a-f]{12}")
 uuid.uuid4 = _uuid4
 uuid.uuid5 = lambda ns, name: SENT_U5
-_SENT_NOW = stix2.utils.STIXdatetime(1999, 12, 31, 23, 59, 58, 123456, tzinfo=datetime.timezone.utc)
-stix2.base.get_timestamp = lambda: _SENT_NOW
+if IMPORT_ERROR is None:
+    _SENT_NOW = stix2.utils.STIXdatetime(1999, 12, 31, 23, 59, 58, 123456, tzinfo=datetime.timezone.utc)
+    stix2.base.get_timestamp = lambda: _SENT_NOW
 
 
 def esc(s):
@@ -252,6 +260,8 @@ def pyify(x):
 
 def run(case):
     op = case["op"]
+    if IMPORT_ERROR is not None:
+        return {} if op == "probes" else IMPORT_ERROR
     try:
         if case.get("py"):
             case = dict(case, data=pyify(case["data"]))
